@@ -127,7 +127,7 @@ def generate(ctx, tier, bases):
         # two-edit combinations: a TLC case (slot 1) x a TLC-enumerated edit with the fresh names of slot 2 on the
         # same base, both backends / -r as in the first case; the pair is judged by TLC on the rendered program
         second = collections.defaultdict(list)
-        for e in cached("slot2", slot2):
+        for e in sorted(cached("slot2", slot2), key=lambda e: json.dumps(e, sort_keys=True)):   # TLC's output order varies
             second[e["base"]].append(e["edit"])
         rnd = random.Random(ctx.seed * 7919 + 1)
         firsts = sorted((c for c in cases if c["case"]["kind"] == "idl"),
